@@ -45,6 +45,7 @@ def setup(ctx):
     ctx.require("monitor", "calls_after_failed_import", 9)
     ctx.require("monitor", "calls_with_neighbour_pins", 30)
     ctx.require("monitor", "cli_get_calls", 12)
+    ctx.require("monitor", "calls_after_neighbour_admin", 21)
     ctx.require("monitor", "calls", 31)
     ctx.require("monitor", "failed_verifications", 19)
     ctx.require("monitor", "verify_returns_seen", 29)
@@ -325,6 +326,8 @@ def run(ctx):
                 run_neighbour_pins(ctx, peer, idents, state, tmp, mon)
             if ctx.mine(k + 7):
                 run_cli_get(ctx, peer, idents, state, tmp, mon)
+            if ctx.mine(k + 8):
+                run_after_neighbour_admin(ctx, peer, idents, state, tmp, mon)
             # ---- concurrent calls on one client
             if ctx.mine(k + 1):
                 run_concurrent(ctx, peer, idents, state, tmp, mon)
@@ -562,6 +565,82 @@ def run_cli_get(ctx, peer, idents, state, tmp, mon):
                 elif not received or r.exit_code != 0:
                     ctx.violation("legitimate-request-not-sent:entry=cli-get", f"pinned host with its pinned certificate: exit code {r.exit_code}, {len(received)} bytes sent", wit)
                 ctx.case(("cli-get", tuple(extra), situation, r.exit_code, bool(received)), True, sample=wit)
+    finally:
+        if old_home is None:
+            os.environ.pop("HOME", None)
+        else:
+            os.environ["HOME"] = old_home
+
+
+def run_after_neighbour_admin(ctx, peer, idents, state, tmp, mon):
+    """Store maintenance that is about OTHER entries - revoking the same host on another port, revoking or clearing
+    another host, trusting or importing a neighbour - through the library and through `nauyaca tofu ...`: the host
+    asked for stays pinned, a changed certificate still stops the request."""
+    from cryptography import x509
+    from typer.testing import CliRunner
+
+    from nauyaca.__main__ import app
+    from nauyaca.client.session import GeminiClient
+    from nauyaca.security.tofu import CertificateChangedError, TOFUDatabase
+
+    good = x509.load_der_x509_certificate(idents["good"].der)
+    other_port = peer.port + 1 if peer.port < 65000 else peer.port - 1
+    old_home = os.environ.get("HOME")
+    try:
+        for op in ("get", "upload", "delete"):
+            for admin in ("revoke-other-port", "revoke-other-port-cli", "revoke-other-host", "revoke-by-hostname-of-other-host", "trust-other-port", "revoke-upper-case-spelling-of-other-port", "nothing"):
+                home = os.path.join(tmp, f"adm-{op}-{admin}")
+                os.makedirs(os.path.join(home, ".nauyaca"))
+                dbp = Path(home) / ".nauyaca" / "tofu.db"
+                db = TOFUDatabase(dbp)
+                db.trust("127.0.0.1", peer.port, good)
+                db.trust("127.0.0.1", other_port, good)
+                db.trust("neighbour.test", peer.port, good)
+                if admin == "revoke-other-port":
+                    db.revoke("127.0.0.1", other_port)
+                elif admin == "revoke-other-port-cli":
+                    os.environ["HOME"] = home
+                    CliRunner().invoke(app, ["tofu", "revoke", "127.0.0.1", "--port", str(other_port)], input="y\n")
+                elif admin == "revoke-other-host":
+                    db.revoke("neighbour.test", peer.port)
+                elif admin == "revoke-by-hostname-of-other-host":
+                    db.revoke_by_hostname("neighbour.test")
+                elif admin == "trust-other-port":
+                    db.trust("127.0.0.1", other_port, x509.load_der_x509_certificate(idents["other"].der))
+                elif admin == "revoke-upper-case-spelling-of-other-port":
+                    db.revoke("127.0.0.1".upper(), other_port)
+                state.update(mode="eager", redirect_to=None)
+                state["go"].set()
+                peer.swap_cert(idents["other"])
+                url = f"gemini://127.0.0.1:{peer.port}/private?q=SECRETQUERY"
+                client = GeminiClient(timeout=6, trust_on_first_use=True, tofu_db_path=dbp)
+                n0 = len(peer.log)
+
+                async def call():
+                    if op == "get":
+                        return await client.get(url)
+                    if op == "delete":
+                        return await client.delete(url, token="SECRETTOKEN")
+                    return await client.upload(url, b"SECRET" * 30, mime_type="text/plain", token="SECRETTOKEN")
+
+                try:
+                    resp = asyncio.run(call())
+                    res = ("response", resp.status)
+                except CertificateChangedError:
+                    res = ("changed",)
+                except BaseException as e:  # noqa: BLE001
+                    res = ("error", type(e).__name__)
+                peer.wait_idle(3)
+                received = b"".join(r["received"] for r in peer.log[n0:])
+                ctx.count("monitor", "calls")
+                ctx.count("monitor", "failed_verifications")
+                ctx.count("monitor", "calls_after_neighbour_admin")
+                wit = {"operation": op, "store_maintenance_before": admin, "asked_for": f"127.0.0.1:{peer.port} (pinned, never touched)", "result": res, "peer_received_len": len(received), "peer_received_head": received[:100]}
+                if received:
+                    ctx.violation(f"peer-received-bytes:entry={op}:pin=changed:after-neighbour-{admin.split('-')[0]}", f"{len(received)} request bytes reached a peer whose certificate differs from the pin (the pin was lost to maintenance of another entry)", wit)
+                elif res[0] == "response":
+                    ctx.undecided("after-neighbour-admin: verification did not fail (see C03)")
+                ctx.case(("after-neighbour-admin", op, admin, res[0], bool(received)), True, sample=wit)
     finally:
         if old_home is None:
             os.environ.pop("HOME", None)
